@@ -108,7 +108,11 @@ static void mode_data() {
         M.begin_case(c, s.descr());
         vh::set_grid(s.n, s.nb);
         Built b = build(s, s.nb);
-        if ((s.kind == K_KICKX || s.kind == K_KICKY)) { auto o = s.off; b.kick->swapOffset(o); }
+        if ((s.kind == K_KICKX || s.kind == K_KICKY)) {
+            // one kick map in eight has a history: the same table, then one with rows that do not fit the grid, then the table again
+            if ((c / K_NKINDS) % 8 == 6) { kick_history_through_far_offsets(*b.kick, s.off, s.n, (uint64_t)c); M.ev("kick_maps_with_a_history_through_offsets_beyond_the_grid"); }
+            auto o = s.off; b.kick->swapOffset(o);
+        }
         uint32_t m;
         float* din = b.in->getData();
         const size_t N = (size_t)s.nb * s.n * s.n;
